@@ -318,8 +318,11 @@ def rule_D(ck, units):
     for u in units.values():
         by = {}
         for f in u.funcs:
-            if f.cls and f.cls.startswith('amgcl::adapter::') and (f.j.get('ctor') or f.q.endswith('operator++')) and f.body is not None and _member_elem_writes(f):
-                by.setdefault(f.clsfull, {})['ctor' if f.j.get('ctor') else 'inc'] = f
+            if f.cls and f.cls.startswith('amgcl::adapter::') and (f.j.get('ctor') or f.q.endswith('operator++')) and f.body is not None:
+                import inline
+                f = inline.expand(f, inline.same_class_helper())       # the selection / gathering may live in a shared private member
+                if _member_elem_writes(f):
+                    by.setdefault(f.clsfull, {})['ctor' if f.j.get('ctor') else 'inc'] = f
         for clsfull, d in by.items():
             if 'ctor' not in d or 'inc' not in d:
                 continue
@@ -593,6 +596,8 @@ def rule_I(ck, units, floor=2):
         for f in u.funcs:
             if f.cfg is None or not f.cls or not f.cls.startswith('amgcl::adapter::') or not f.rel().startswith('amgcl/'):
                 continue
+            import inline
+            f = inline.expand(f, inline.same_class_helper())
             loc = locate(f)
             elems, kills = {}, {}
             for n in f.nodes.values():
